@@ -73,6 +73,9 @@ fn main() {
                 Err(p) => println!("PANIC {}", p.what),
             }
         }
+        "c11-digest" => {
+            println!("{}", props::c11::matrix_digest());
+        }
         "list" => {
             for (id, _) in props::ALL {
                 println!("{id}");
